@@ -15,7 +15,7 @@ TECHNIQUE = ("exhaustive enumeration (every day of years 1..9999) and property-b
              "independent proleptic-Gregorian model and Cassandra's time-UUID comparator")
 RULE = ("Part 'days': one case per (year, month); all its days n are checked: Date(n).date()/str()/Date(str)/Date(date)/"
         "Date(datetime) against spec.civil (integer era arithmetic, no datetime/calendar), plus ==, <, hash.  Thorough: every "
-        "month of years 1..9999 (3 652 059 days, exhaustive); quick: the years y with y % 10 == VERIF_SEED % 10 plus the "
+        "month of years 1..9999 (3 652 059 days, exhaustive); quick: the years y with y % 9 == VERIF_SEED % 9 (one year in nine) plus the "
         "boundary years {1,2,4,100,400,1582,1600,1900,1969,1970,1971,2000,2038,2100,9998,9999}.  Part 'date-sampled': day "
         "numbers over the int32 wire range (boundary weighted: around the first/last representable day, +-2^31), padded/"
         "unpadded/'+'-prefixed and invalid 'yyyy-mm-dd' strings.  Part 'time-grid' (exhaustive): hour {0,1,11,12,23} x minute "
@@ -61,8 +61,9 @@ def _day_chunks(tier):
             seed = int(os.environ.get("VERIF_SEED", "1")) or 1
         except ValueError:
             seed = 1
-        k = seed % 10
-        years = sorted(set(y for y in range(1, 10000) if y % 10 == k) | set(_BOUNDARY_YEARS))
+        # a stride coprime to 4, 100 and 400, so that every seed meets leap, century and 400-year cases
+        k = seed % 9
+        years = sorted(set(y for y in range(1, 10000) if y % 9 == k) | set(_BOUNDARY_YEARS))
         return [{"years": years[i::4]} for i in range(4)]
     return [{"years": list(range(lo, min(lo + 100, 10000)))} for lo in range(1, 10000, 100)]
 
@@ -529,8 +530,8 @@ def interpret_uuid(case, ctx):
 def parts(tier):
     return [
         EnumPart("days", _day_chunks(tier), _day_cases, interpret_month, sampled=(tier == "quick")),
-        hyp_part("date-sampled", s_date_sample, interpret_date_sample, tier, quick=600, thorough=6000, thorough_shards=4),
+        hyp_part("date-sampled", s_date_sample, interpret_date_sample, tier, quick=600, thorough=5000, thorough_shards=4),
         EnumPart("time-grid", [{}], _time_grid_cases, interpret_time),
-        hyp_part("time", s_time, interpret_time, tier, quick=800, thorough=8000, thorough_shards=4),
-        hyp_part("uuid", s_uuid, interpret_uuid, tier, quick=1500, thorough=15000, thorough_shards=8),
+        hyp_part("time", s_time, interpret_time, tier, quick=800, thorough=6000, thorough_shards=4),
+        hyp_part("uuid", s_uuid, interpret_uuid, tier, quick=1500, thorough=10000, thorough_shards=8),
     ]
